@@ -197,7 +197,7 @@ func execOp(line string) {
 	case "tnc":
 		emit(line, safely(func() string { return implTnc(t) }))
 
-	case "evcheck", "fancheck", "closecheck", "stallcheck", "racecheck":
+	case "evcheck", "fancheck", "closecheck", "stallcheck", "racecheck", "genfiles":
 		// observation-carrying ops: the observation was made when the scenario ran; on replay the stored observation
 		// is re-judged by the model (the scenario itself is re-run by the generator, see DESIGN.md §5)
 		emit(line, "ok")
